@@ -915,9 +915,17 @@ def windowed_part(run, prop, estimate_only=False):
     out, _ = run.go("^TestWindowedRandom$", env={"VERIF_N": n})
     tp = os.path.join(out, "windowed_trace.ndjson")
     rejects, total = validate_sharded(run, "WindowedTrace", "Windowed_trace.cfg", tp)
+    traced = set()
+    with open(tp) as fh:
+        for line in fh:
+            if '"ev":"Reset"' in line and '"traced"' in line:
+                traced.add(json.loads(line)["trace"])
     if estimate_only:
-        # C16: the wrapper reports exactly its delegate's estimate, also when the delegate moved without the wrapper
-        rejects = [rj for rj in rejects if "estimate" in rj["why"]]
+        # C16: the wrapper reports exactly its delegate's estimate, also when the delegate moved without the wrapper, and the
+        # traced wrapper forwards every sample unchanged
+        rejects = [rj for rj in rejects if "estimate" in rj["why"] or rj["trace"] in traced]
+    else:
+        rejects = [rj for rj in rejects if rj["trace"] not in traced]
     run.traces += n
     run.events += total
     closes = moved = 0
@@ -1098,6 +1106,28 @@ def c14(run):
         run.report("gRPC %s overlapping a %s on the same stream (%s): expected %s, logged %s" % (
             rj["op"]["kind"], "send" if rj["op"]["kind"] == "recv" else "recv", row.get("pattern"), json.dumps(rj["expected"]), json.dumps(rj["logged"])),
             {"reject": rj, "scenario": row, "rerun": "bin/check C14"}, {"kind": rj["op"]["kind"] + "-duplex", "grant": rj["op"]["grant"], "pattern": row.get("pattern")})
+    # sequences of RecvMsg / SendMsg on ONE wrapped stream, with nil / io.EOF / plain / status errors and refusals in between
+    out, _ = run.go("^TestGrpcStreamSequence$", env={"VERIF_N": 1500 if th else 200})
+    info = json.load(open(os.path.join(out, "grpc_seq.json")))
+    run.extra["stream_sequences"] = info
+    tp = os.path.join(out, "grpc_seq_trace.ndjson")
+    rejects, total = validate_sharded(run, "GrpcTrace", "Grpc_trace.cfg", tp)
+    run.events += total
+    run.traces += info["streams"]
+    rows = None
+    seen = set()
+    for rj in rejects:
+        if rows is None:
+            rows = {x["trace"]: x for x in vlib.read_ndjson(tp)}
+        row = rows.get(rj["trace"], {})
+        key = (rj["op"]["kind"], rj["op"]["grant"], row.get("inner"))
+        if key in seen:
+            continue
+        seen.add(key)
+        hist = [x for x in rows.values() if x.get("stream") == row.get("stream") and x.get("pos", 0) <= row.get("pos", 0)]
+        run.report("gRPC %s, operation %s of a sequence on one stream (earlier results: %s): expected %s, logged %s" % (
+            rj["op"]["kind"], row.get("pos"), [x.get("inner") for x in hist[:-1]], json.dumps(rj["expected"]), json.dumps(rj["logged"])),
+            {"reject": rj, "sequence": hist, "rerun": "VERIF_SEED=%d bin/check C14" % run.seed}, {"kind": rj["op"]["kind"] + "-sequence", "grant": rj["op"]["grant"]})
     run.assumptions += ["recording limiter / listener doubles and fake handler, invoker and ServerStream (no network); interceptors are stateless, so sequences are independent operations",
                         "stream operations: RecvMsg consults the server-side stream classifier and SendMsg the client-side one, as the options are named"]
 
